@@ -147,6 +147,74 @@ def translate_fn(fn, params):
     return f"Definition free_{fn.name} (N : Num) (steps : nat) ({' '.join(params)} : N) : list N * list N :=\n{body}\n"
 
 
+# ---------- min_max_median: np.where over the default probability grid ----------
+def float_const(node):
+    """a float literal as an exact decimal: nofdec N mantissa exponent"""
+    if isinstance(node, ast.Constant) and type(node.value) in (int, float):
+        from decimal import Decimal
+        d = Decimal(repr(node.value))
+        sign, digits, exp = d.as_tuple()
+        if sign or exp > 0:
+            raise Unsupported("constant " + repr(node.value))
+        m = int("".join(map(str, digits)))
+        return f"(nofdec N ({m})%Z {-exp}%nat)"
+    raise Unsupported("constant " + ast.unparse(node))
+
+
+DEAD_OK = ("p_minmax.alpha_cut(0.5)", "p_minmax.left.copy()", "steps // 2")
+
+
+def translate_median(fn):
+    names = [a.arg for a in fn.args.args]
+    if names != ["minimum", "maximum", "median", "steps"]:
+        raise Unsupported(f"min_max_median: signature {names}")
+    body = [s for s in fn.body if not (isinstance(s, ast.Expr) and isinstance(s.value, ast.Constant))]
+    if not body or ast.unparse(body[0]) != "if minimum == maximum:\n    return min_max(minimum, maximum)":
+        raise Unsupported("min_max_median: degenerate branch " + ast.unparse(body[0])[:80])
+    grid_name, wheres, ret, dead = None, {}, None, set()
+    scal = {"minimum", "maximum", "median"}
+    for st in body[1:]:
+        if isinstance(st, ast.Assign) and len(st.targets) == 1 and isinstance(st.targets[0], ast.Name):
+            name, rhs = st.targets[0].id, ast.unparse(st.value)
+            if rhs == "I(minimum, maximum).to_pbox()":
+                grid_name = name
+                continue
+            if rhs in DEAD_OK:
+                dead.add(name)           # never used below (checked at the end)
+                continue
+            v = st.value
+            if (isinstance(v, ast.Call) and ast.unparse(v.func) == "np.where" and len(v.args) == 3 and not v.keywords
+                    and isinstance(v.args[0], ast.Compare) and len(v.args[0].ops) == 1
+                    and ast.unparse(v.args[0].left) == f"{grid_name}.p_values"
+                    and all(isinstance(a, ast.Name) and a.id in scal for a in v.args[1:])):
+                c = float_const(v.args[0].comparators[0])
+                op = type(v.args[0].ops[0])
+                test = {ast.Lt: f"nltb N p {c}", ast.LtE: f"nleb N p {c}", ast.Gt: f"nltb N {c} p", ast.GtE: f"nleb N {c} p"}.get(op)
+                if test is None:
+                    raise Unsupported("min_max_median: comparison " + rhs)
+                wheres[name] = f"(map (fun p : N => if {test} then {v.args[1].id} else {v.args[2].id}) pvals)"
+                continue
+            raise Unsupported("min_max_median: statement " + ast.unparse(st)[:80])
+        if isinstance(st, ast.Return) and isinstance(st.value, ast.Call) and ast.unparse(st.value.func) == "Staircase" and not st.value.args:
+            kw = {k.arg: k.value for k in st.value.keywords}
+            if set(kw) - {"left", "right", "mean", "var", "steps"} or not {"left", "right"} <= set(kw):
+                raise Unsupported(f"min_max_median: Staircase keywords {sorted(kw)}")
+            l, r = ast.unparse(kw["left"]), ast.unparse(kw["right"])
+            if l not in wheres or r not in wheres:
+                raise Unsupported("min_max_median: bounds " + l + ", " + r)
+            ret = (wheres[l], wheres[r])
+            continue
+        raise Unsupported("min_max_median: statement " + ast.unparse(st)[:80])
+    if ret is None or grid_name is None:
+        raise Unsupported("min_max_median: no return Staircase(...)")
+    used = {n.id for st in body[1:] for n in ast.walk(st) if isinstance(n, ast.Name) and isinstance(n.ctx, ast.Load)}
+    if dead & used:
+        raise Unsupported(f"min_max_median: {sorted(dead & used)} is used")
+    return ("(* None: minimum == maximum, delegated to min_max; pvals: the default probability grid (p_values of any Staircase) *)\n"
+            "Definition free_min_max_median (N : Num) (pvals : list N) (minimum maximum median : N) : option (list N * list N) :=\n"
+            f"  if neqb N minimum maximum then None else Some ({ret[0]},\n    {ret[1]}).\n")
+
+
 def translate(path):
     tree = ast.parse(open(path).read())
     fns = {n.name: n for n in tree.body if isinstance(n, ast.FunctionDef)}
@@ -156,6 +224,9 @@ def translate(path):
         if name not in fns:
             raise Unsupported(name + " not found")
         out.append(translate_fn(fns[name], params))
+    if "min_max_median" not in fns:
+        raise Unsupported("min_max_median not found")
+    out.append(translate_median(fns["min_max_median"]))
     # mean_var and max_mean are thin wrappers
     for name, expect in (("mean_var", "return mean_std(mean, np.sqrt(var))"), ("max_mean", "return min_mean(-maximum, -mean).__neg__()")):
         body = [ast.unparse(s) for s in fns[name].body if not (isinstance(s, ast.Expr) and isinstance(s.value, ast.Constant))]
